@@ -67,6 +67,7 @@ structure DefJ where
   dbgO : Option DbgType := none
   derefO : Option DerefType := none
   derefMutO : Option DerefType := none
+  intoO : Option IntoType := none
   deriving Inhabited
 
 structure St where
@@ -194,6 +195,7 @@ def DefJ.derefType (d : DefJ) (mutable : Bool) : DerefType :=
   else .struct (mk (d.variants[0]!))
 
 def DefJ.intoType (d : DefJ) : IntoType :=
+  if let some t := d.intoO then t else
   let mk (v : VariantJ) : IntoVariant :=
     { name := v.name, shape := v.shape, fields := v.fields.toList.map (·.into) }
   if d.isEnum then .enum (d.variants.toList.map mk)
@@ -285,7 +287,7 @@ def methodNum (table : List (String × Nat)) (path : String) : Nat :=
 /-- ["defe2e", id, def, record, methods] — `def` as for "def" (leaf types, discriminant values, names), `record` as for
     "expand". Every configuration the attributes determine is taken from the attribute-layer model. Returns an error
     string when the model does not accept the definition. -/
-def defE2E (dj : DefJ) (rec : Json) (methods : Json) : Except String DefJ :=
+def defE2E (dj : DefJ) (rec : Json) (methods : Json) (types : Json) : Except String DefJ :=
   let d := DA.deriveInput rec
   let F := Educe.Attr.TraitId.all
   let table : List (String × Nat) := (jarr methods).toList.map fun p => (jstr (jarr p)[0]!, jnat (jarr p)[1]!)
@@ -329,8 +331,20 @@ def defE2E (dj : DefJ) (rec : Json) (methods : Json) : Except String DefJ :=
       else pure none
     let derefO := if c.traits .deref then some (Educe.Bridge.derefType (Educe.Bridge.derefFieldFlag c .deref) d) else none
     let derefMutO := if c.traits .derefMut then some (Educe.Bridge.derefType (Educe.Bridge.derefFieldFlag c .derefMut) d) else none
+    -- Into: the normalised type strings are numbered by their position in the generator's palette
+    let tyNames : List String := (jarr types).toList.map fun j => (jstr j).replace " " ""
+    let tnum : String → Nat := fun s => (tyNames.findIdx? fun n => n == s.replace " " "").getD (1000 + s.length)
+    let intoO ← if c.traits .into then
+        match map.find? fun p => p.1 == Educe.Attr.TraitId.into with
+        | some (_, ms) => do
+          let targets ← fail "Into targets" (Educe.Attr.intoTypeFromMetas true ms [])
+          match targets with
+          | some ts => (fail "Into scan" (Educe.Bridge.intoScan c ts)).map (·.map (Educe.Bridge.intoType tnum num d.kind))
+          | none => pure none
+        | none => pure none
+      else pure none
     let ordMode := if c.traits .ord && c.traits .partialOrd then "both" else if c.traits .ord then "ord" else if c.traits .partialOrd then "partialord" else dj.ordMode
-    pure { dj with eqO := eqO, hashO := hashO, ordO := ordO, cloneO := cloneO, dbgO := dbgO, derefO := derefO, derefMutO := derefMutO,
+    pure { dj with eqO := eqO, hashO := hashO, ordO := ordO, cloneO := cloneO, dbgO := dbgO, derefO := derefO, derefMutO := derefMutO, intoO := intoO,
                    copy := if c.traits .clone then c.traits .copy else dj.copy, ordMode := ordMode }
 
 def handle (st : St) (j : Json) : St × Option Json :=
@@ -346,7 +360,7 @@ def handle (st : St) (j : Json) : St × Option Json :=
   else if op == "def" then
     ({ st with defs := st.defs.insert (jnat a[1]!) (parseDef a[2]!) }, none)
   else if op == "defe2e" then
-    match defE2E (parseDef a[2]!) a[3]! a[4]! with
+    match defE2E (parseDef a[2]!) a[3]! a[4]! (a[5]?.getD Json.null) with
     | .ok dj => ({ st with defs := st.defs.insert (jnat a[1]!) dj }, some (Json.arr #["defe2e", a[1]!, "ok"]))
     | .error e => (st, some (Json.arr #["defe2e", a[1]!, Json.str e]))
   else if op == "eq" then
